@@ -236,6 +236,12 @@ func (x *inst) oracles(key string, final bool) {
 		deepSeen = map[string]bool{}
 	}
 	deepSeen[key] = true
+	if x.wants("restview") {
+		x.restView()
+		if len(x.viol) > 0 {
+			return
+		}
+	}
 	if x.wants("rev") && m.Open {
 		var got int64
 		x.guard("rev", func() error { got = x.srv.Replica().GetRevisionCounter(); return nil })
